@@ -49,7 +49,7 @@ Qed.
 (* logs whose OBD columns never report an update convert (nothing to predict from) *)
 Lemma predict_no_fresh laps : no_fresh laps -> predict_obd laps = Ok laps.
 Proof.
-  intros H. unfold predict_obd.
+  intros H. unfold predict_obd, predict_obd_with.
   destruct (laps_no_fresh laps 0 (mkP None [] [] []) H) as [st [H1 [H2 _]]].
   rewrite H1. cbn [bind]. destruct (p_needed st); [reflexivity|].
   rewrite H2. reflexivity.
@@ -94,4 +94,4 @@ Lemma convert_disabled o v laps geod :
   convert o v laps geod =
   (if Nat.ltb (length laps) 3 then Ok []
    else laps_of o (if String.eqb (o_vehicle o) "" then v else o_vehicle o) None 1 (middle laps) geod).
-Proof. intros H. unfold convert. rewrite H. reflexivity. Qed.
+Proof. intros H. unfold convert, convert_with. rewrite H. reflexivity. Qed.
